@@ -207,6 +207,7 @@ def run(P: Program, R: Report, tier: str) -> None:
         "unknown keys are rejected before any flag or registry entry changes",
         "a disabled feature is never written by update() or compute(); enabling with recompute recomputes every requested key",
     ]
+    R.decides += ['dropping a requested key cannot raise half-way; the IoU write kernel writes every edge it is handed']
     R.not_decided += ["that recomputed values equal reference values"]
     from .annot import active_accessors
 
